@@ -3,10 +3,14 @@
    variable.  Tamperings are not drawn at random: `cursor` walks the constant sequence Tampers of
    ALL (version, committed field) pairs, one per OfferTampered step, and survives the reset at the
    end of a behaviour - so a simulation run of sufficient depth replays every pair (the check
-   verifies this), each at a random position of a random chain. *)
+   verifies this), each at a random position of a random chain.  After the pairs the cursor walks
+   CTampers: every move of a class field from one presence / value class to another, <<version,
+   field, from, to>>, offered on a block of a shape whose builder gives the field the class `from`
+   (ClassEveryVersion: at every version in which the field exists and the protocol tells the two
+   classes apart; otherwise the versions are dealt round-robin over the moves). *)
 EXTENDS MCBlockVerify, Json, SequencesExt
 
-CONSTANT MaxSteps
+CONSTANTS MaxSteps, ClassEveryVersion
 
 VARIABLES hist, cursor, steps
 mbtvars == <<vars, hist, cursor, steps>>
@@ -16,24 +20,53 @@ Tampers ==
   IN S(1) \o S(2) \o S(3) \o S(4)
 NT == Len(Tampers)
 
+ClsMoves == {t \in MCClassFields \X Cls3 \X Cls3 :
+               /\ t[2] # t[3] /\ t[3] \in MCClassOf[t[1]]
+               /\ \E s \in MCShapes : MCShapeClass[s][t[1]] = t[2]}
+ToldApart(v, t) == t[1] \in MCClassIn[v] /\ SeenAs(t[2], t[1], MCProtoSame[v]) # SeenAs(t[3], t[1], MCProtoSame[v])
+CTampers ==
+  IF ClassEveryVersion
+  THEN SetToSeq({<<p[1], p[2][1], p[2][2], p[2][3]>> : p \in {q \in VSet \X ClsMoves : ToldApart(q[1], q[2])}})
+  ELSE LET ts == SetToSeq(ClsMoves) IN
+       [i \in 1..Len(ts) |->
+          LET vs == SelectSeq(MCVersions, LAMBDA v : ToldApart(v, ts[i]))
+          IN <<vs[(i % Len(vs)) + 1], ts[i][1], ts[i][2], ts[i][3]>>]
+NC == Len(CTampers)
+(* third segment: the content alterations of the all-zero shape, versions dealt round-robin (a hash function
+   that stops looking at a transaction / receipt / event once some field is zero accepts them) *)
+ZTampers == LET fs == SetToSeq(ZeroTargets \cap (TxLevel \cup Rc \cup Ev))
+            IN [i \in 1..Len(fs) |-> <<MCVersions[(i % Len(MCVersions)) + 1], fs[i]>>]
+NZ == Len(ZTampers)
+
 (* the constant tables, once, for the python driver (a JSON object line) *)
 ASSUME PrintT(ToJson([committed |-> MCCommitted, legacy |-> LegacyCommitted,
                       txfields |-> MCTxFields, ntampers |-> NT, targets |-> MCTargets,
-                      inapkinds |-> InapMoves \cup InapAdds]))
+                      inapkinds |-> InapMoves \cup InapAdds,
+                      classtampers |-> CTampers, zerotampers |-> ZTampers, shapeclass |-> MCShapeClass, classin |-> MCClassIn,
+                      classof |-> MCClassOf, validclassof |-> MCValidClassOf, protosame |-> MCProtoSame]))
 
 R(S) == {RandomElement(S)}
-CurV == Tampers[cursor][1]
-CurF == Tampers[cursor][2]
+IsCls == cursor > NT /\ cursor <= NT + NC
+IsZ == cursor > NT + NC
+CurC == CTampers[cursor - NT]
+CurZ == ZTampers[cursor - (NT + NC)]
+CurV == IF IsCls THEN CurC[1] ELSE IF IsZ THEN CurZ[1] ELSE Tampers[cursor][1]
+CurF == IF IsCls THEN CurC[2] ELSE IF IsZ THEN CurZ[2] ELSE Tampers[cursor][2]
 (* versions a valid offer may use now: not below the head's, not above the cursor's (so that the
    cursor's tamper stays offerable) *)
 OfferVersions == {MCVersions[i] : i \in HeadVIdx..VIdx(CurV)}
 TamperEnabled == CanGrow /\ HeadVIdx <= VIdx(CurV)
 
-MBTInit == Init /\ hist = <<>> /\ steps = 0 /\ cursor \in R(1..NT)
+MBTInit == Init /\ hist = <<>> /\ steps = 0 /\ cursor \in R(1..(NT + NC + NZ))
 
-Tamper(var) == OfferTampered(CurV, var, CurF) /\ cursor' = (cursor % NT) + 1
-(* the shape of the tampered block is drawn among the shapes in which the field has a target *)
-ShapesFor(f) == {s \in MCShapes : f \in MCTargets[s]}
+Tamper(var) ==
+  /\ IF IsCls THEN OfferReclass(CurV, var, CurF, CurC[4]) ELSE OfferTampered(CurV, var, CurF)
+  /\ cursor' = (cursor % (NT + NC + NZ)) + 1
+(* the shape of the tampered block is drawn among the shapes in which the field has a target, resp.
+   in which the builder gives the field the class it is moved from *)
+ShapesFor(f) == IF IsCls THEN {s \in MCShapes : MCShapeClass[s][f] = CurC[3]}
+                ELSE IF IsZ THEN {"zero"}
+                ELSE {s \in MCShapes : f \in MCTargets[s]}
 
 Other ==
   \/ \E v \in R(OfferVersions), var \in R(MCShapes) : Offer(v, var)
